@@ -501,7 +501,13 @@ def rewrite_body(body, log, r14=None, mut_refs=None):
             break
         x = mo.group(1)
         arg = x if x in (mut_refs or ()) else '&mut ' + x
-        body = body[:mo.start()] + 'vx_sort_by_abstract(%s)' % arg + body[c + 1:]
+        clos = re.sub(r'\s+', '', body[o + 1:c])
+        if clos == '|(a,_),(b,_)|b.cmp(a)':
+            # the comparator orders pairs by DESCENDING first component: the call is specified as
+            # "rearranged and sorted that way" (A-std for slice::sort_by with a total order on integers)
+            body = body[:mo.start()] + 'vx_sort_by_first_desc(%s)' % arg + body[c + 1:]
+        else:
+            body = body[:mo.start()] + 'vx_sort_by_abstract(%s)' % arg + body[c + 1:]
         log.append('R21')
 
     # R22 -- `{ let mut G = PATH.write().unwrap(); *G += 1; }` -> `PATH.vx_incr();` (a shared statistics counter
